@@ -85,7 +85,7 @@ theorem flush_quiet_step (dtx drx : Nat) (rxWe : Bool) (T k : Nat) (s : UartFlus
   have htx : ((uartFlush dtx drx rxWe T k).next s i).top.tx =
       (syncFifoBuffered dtx zTokN).next s.top.tx false (tokN i.r) (s.fc == 0) := by
     show (syncFifoBuffered dtx zTokN).next s.top.tx i.re (tokN i.r) (flushPop s i.srcRdy) = _
-    simp [flushPop, WaitTimer.done, hc, hre]
+    simp [flushPop, WaitTimer.done, hc, hre, hr]
   refine ⟨hcnt, rfl, ?_, ?_⟩
   · rw [htx]
     by_cases h0 : s.fc = 0
@@ -577,5 +577,107 @@ theorem xover_run_back (dtx drx : Nat) (rxWe : Bool) (ins : List (CsrIn × CsrIn
     rw [← List.append_assoc, e, List.append_assoc, List.append_assoc, List.append_assoc, List.append_assoc,
       ← List.append_assoc (dataOf _) (dataOf _) (xoWrittenX _ _ _ _ _), e']
     simp only [List.append_assoc]
+
+/-! ### add_auto_tx_flush (fixed strobe): every character is delivered exactly once or flushed -/
+
+/-- Characters accepted from `rxtx` (`re ∧ ¬txfull`). -/
+def flWritten (dtx drx : Nat) (rxWe : Bool) (T k : Nat) (s : UartFlushSt) : List UartTopIn → List Nat
+  | [] => []
+  | i :: is => (if i.re && !(uartTopOut dtx drx s.top i).txfull then [i.r % 256] else []) ++
+               flWritten dtx drx rxWe T k (uartFlushNext dtx drx rxWe T k s i) is
+
+/-- Characters handed to the PHY (`source.valid ∧ source.ready`). -/
+def flPhy (dtx drx : Nat) (rxWe : Bool) (T k : Nat) (s : UartFlushSt) : List UartTopIn → List Nat
+  | [] => []
+  | i :: is => (if (uartTopOut dtx drx s.top i).srcV && i.srcRdy then [(uartTopOut dtx drx s.top i).srcD] else []) ++
+               flPhy dtx drx rxWe T k (uartFlushNext dtx drx rxWe T k s i) is
+
+/-- Characters popped from the TX FIFO while `source.ready = 0` (flushed). -/
+def flFlushed (dtx drx : Nat) (rxWe : Bool) (T k : Nat) (s : UartFlushSt) : List UartTopIn → List Nat
+  | [] => []
+  | i :: is => (if (uartTopOut dtx drx s.top i).srcV && flushPop s i.srcRdy && !i.srcRdy then
+                  [(uartTopOut dtx drx s.top i).srcD] else []) ++
+               flFlushed dtx drx rxWe T k (uartFlushNext dtx drx rxWe T k s i) is
+
+/-- The pop log of the TX FIFO: (character, taken by the PHY?) for every cycle with `source.valid ∧ tx_fifo.source.ready`. -/
+def flPops (dtx drx : Nat) (rxWe : Bool) (T k : Nat) (s : UartFlushSt) : List UartTopIn → List (Nat × Bool)
+  | [] => []
+  | i :: is => (if (uartTopOut dtx drx s.top i).srcV && flushPop s i.srcRdy then
+                  [((uartTopOut dtx drx s.top i).srcD, i.srcRdy)] else []) ++
+               flPops dtx drx rxWe T k (uartFlushNext dtx drx rxWe T k s i) is
+
+/-- Per-cycle facts about the (fixed) pop strobe: a PHY handshake always pops; a pop without `source.ready` needs the
+    expired timer and `flush_count = 0`. -/
+theorem flushPop_of_ready (s : UartFlushSt) : flushPop s true = true := by
+  unfold flushPop; split <;> simp
+
+theorem flushPop_flush (s : UartFlushSt) (h : flushPop s false = true) : s.cnt = 0 ∧ s.fc = 0 := by
+  unfold flushPop WaitTimer.done at h
+  by_cases hc : s.cnt = 0 <;> simp [hc] at h
+  exact ⟨hc, h⟩
+
+def flTxIn (s : UartFlushSt) (i : UartTopIn) : In Nat := { valid := i.re, tok := tokN i.r, ready := flushPop s i.srcRdy }
+
+theorem flush_pops_step (dtx drx : Nat) (rxWe : Bool) (T k : Nat) (s : UartFlushSt) (i : UartTopIn)
+    (h : s.top.tx.q.length ≤ dtx) :
+    let s' := uartFlushNext dtx drx rxWe T k s i
+    dataOf (fbInflight s.top.tx) ++ (if i.re && !(uartTopOut dtx drx s.top i).txfull then [i.r % 256] else []) =
+      (if (uartTopOut dtx drx s.top i).srcV && flushPop s i.srcRdy then
+        [((uartTopOut dtx drx s.top i).srcD, i.srcRdy)] else []).map (·.1) ++ dataOf (fbInflight s'.top.tx) ∧
+    s'.top.tx.q.length ≤ dtx := by
+  intro s'
+  have etx : s'.top.tx = (syncFifoBuffered dtx zTokN).step s.top.tx (flTxIn s i) := rfl
+  obtain ⟨a1, a2⟩ := fb_step_inflight dtx s.top.tx (flTxIn s i) h
+  have hw : (if i.re && !(uartTopOut dtx drx s.top i).txfull then [i.r % 256] else []) =
+      dataOf ((syncFifoBuffered dtx zTokN).accNow s.top.tx (flTxIn s i)) := by
+    simp only [Elem.accNow, Elem.out, flTxIn, uartTopOut, syncFifoBuffered, tokN, dataOf, Bool.not_not]
+    exact ite_map_singleton _ (fun t : Tok Nat => t.data) (⟨i.r % 256, false, false⟩ : Tok Nat)
+  have hp : (if (uartTopOut dtx drx s.top i).srcV && flushPop s i.srcRdy then
+        [((uartTopOut dtx drx s.top i).srcD, i.srcRdy)] else []).map (·.1) =
+      dataOf ((syncFifoBuffered dtx zTokN).delNow s.top.tx (flTxIn s i)) := by
+    simp only [Elem.delNow, Elem.out, flTxIn, uartTopOut, syncFifoBuffered, dataOf]
+    by_cases hc : (s.top.tx.readable && flushPop s i.srcRdy) = true <;> simp [hc]
+  have a1' := congrArg dataOf a1
+  simp only [dataOf, List.map_append] at a1'
+  simp only [dataOf] at hw hp ⊢
+  refine ⟨?_, by rw [etx]; exact a2⟩
+  rw [hw, hp, etx, a1']
+
+theorem flush_pops_run (dtx drx : Nat) (rxWe : Bool) (T k : Nat) (ins : List UartTopIn) (s : UartFlushSt)
+    (h : s.top.tx.q.length ≤ dtx) :
+    let s' := (uartFlush dtx drx rxWe T k).runFrom s ins
+    dataOf (fbInflight s.top.tx) ++ flWritten dtx drx rxWe T k s ins =
+      (flPops dtx drx rxWe T k s ins).map (·.1) ++ dataOf (fbInflight s'.top.tx) ∧
+    s'.top.tx.q.length ≤ dtx := by
+  induction ins generalizing s with
+  | nil => simp [flWritten, flPops, Machine.runFrom, h]
+  | cons i is ih =>
+    obtain ⟨e, g⟩ := flush_pops_step dtx drx rxWe T k s i h
+    obtain ⟨e', g'⟩ := ih (uartFlushNext dtx drx rxWe T k s i) g
+    refine ⟨?_, g'⟩
+    simp only [flWritten, flPops, List.map_append]
+    show _ = _ ++ dataOf (fbInflight ((uartFlush dtx drx rxWe T k).runFrom (uartFlushNext dtx drx rxWe T k s i) is).top.tx)
+    rw [← List.append_assoc, e, List.append_assoc, e', List.append_assoc]
+
+/-- The PHY handshakes are exactly the pops with `source.ready`, the flushed characters exactly the pops without. -/
+theorem flush_pops_split (dtx drx : Nat) (rxWe : Bool) (T k : Nat) (ins : List UartTopIn) (s : UartFlushSt) :
+    flPhy dtx drx rxWe T k s ins = ((flPops dtx drx rxWe T k s ins).filter (·.2)).map (·.1) ∧
+    flFlushed dtx drx rxWe T k s ins = ((flPops dtx drx rxWe T k s ins).filter (!·.2)).map (·.1) := by
+  induction ins generalizing s with
+  | nil => simp [flPhy, flFlushed, flPops]
+  | cons i is ih =>
+    obtain ⟨e1, e2⟩ := ih (uartFlushNext dtx drx rxWe T k s i)
+    simp only [flPhy, flFlushed, flPops, List.filter_append, List.map_append, e1, e2]
+    constructor
+    · congr 1
+      cases hr : i.srcRdy
+      · by_cases hc : ((uartTopOut dtx drx s.top i).srcV && flushPop s false) = true <;> simp [hc]
+      · simp [flushPop_of_ready]
+        try (by_cases hv : (uartTopOut dtx drx s.top i).srcV = true <;> simp [hv])
+    · congr 1
+      cases hr : i.srcRdy
+      · by_cases hc : ((uartTopOut dtx drx s.top i).srcV && flushPop s false) = true <;> simp [hc]
+      · simp [flushPop_of_ready]
+        try (by_cases hv : (uartTopOut dtx drx s.top i).srcV = true <;> simp [hv])
 
 end Litex.Periph
